@@ -14,10 +14,16 @@ package multiraft_test
 // One top-level event = one client/timer/operator action followed by running the cluster
 // to quiescence under the DEFAULT environment (every message delivered, per-node FIFO
 // batches, nodes scheduled round-robin). Every departure from that default is an
-// env.Choose deviation: per message {drop, deliver-now-and-again-later (duplicate),
-// hold-and-deliver-later (reorder)}, per event {isolate node n, stall node n} (persistent
-// until the free "heal" event), per storage save / state-machine apply {crash the node
-// here and restart it from its storage + state machine}.
+// env.Choose deviation:
+//   - at the start of an event: isolate node n (all its messages are lost) or stall node n
+//     (it is not scheduled; its inbox and queued controls pile up) - persistent until the free
+//     "heal" event, one faulty node at a time; or one directed link misbehaves for this event:
+//     all its messages are dropped / held for later / delivered now and again later (the held
+//     and duplicated copies are delivered by the "release" event = reordering, stale messages);
+//     system msg1 asks the same three questions per single message instead;
+//   - inside a worker pass: the node crashes before a Storage.Save, after it, or after a
+//     state-machine apply, and is rebuilt from its storage + state machine (the crash-restart
+//     event does the same between passes).
 //
 // Election timeouts are pushed beyond the horizon (ElectionTick 2^20, ticks only on
 // leaders = heartbeats); "the election timer of node n fires" is the explicit campaign
@@ -74,10 +80,10 @@ type c12Cfg struct {
 	leadTargets  []multiraft.NodeID // nodes that may campaign / receive a transfer
 	compactNodes []multiraft.NodeID
 	crashNodes   []multiraft.NodeID
-	nodeFaults   bool     // isolate / stall deviations (persistent until heal)
-	linkModes    []string // per-event link deviations: "drop", "hold", "dup"
-	msgDev       bool     // per-message drop / duplicate / hold deviations
-	crashPoints  []string // crash deviations inside a pass: "save-before", "save-after", "apply-after"
+	nodeFaults   bool          // isolate / stall deviations (persistent until heal)
+	linkModes    []string      // per-event link deviations: "drop", "hold", "dup"
+	msgDev       bool          // per-message drop / duplicate / hold deviations
+	crashPoints  []string      // crash deviations inside a pass: "save-before", "save-after", "apply-after"
 	pebble       *c12PebbleEnv // non-nil: raft log in the Pebble-backed raftlog store (no merging)
 }
 
@@ -139,11 +145,11 @@ func c12HasNode(list []multiraft.NodeID, x multiraft.NodeID) bool {
 }
 
 type c12Stats struct {
-	passes, delivered, dropped, duplicated, held, isolatedDrops                atomic.Int64
-	applyCalls, batchApplies, restoresRunning, restoresRestart                 atomic.Int64
-	acks, acksAfterLeaderChange, futNotLeader, futOtherErr, futAbandoned       atomic.Int64
-	compactions, crashesTop, crashesMid, leaderChanges, twoLeaders, snapMsgs   atomic.Int64
-	forwardedProposals, proposeRejected, stalledBatches                        atomic.Int64
+	passes, delivered, dropped, duplicated, held, isolatedDrops              atomic.Int64
+	applyCalls, batchApplies, restoresRunning, restoresRestart               atomic.Int64
+	acks, acksAfterLeaderChange, futNotLeader, futOtherErr, futAbandoned     atomic.Int64
+	compactions, crashesTop, crashesMid, leaderChanges, twoLeaders, snapMsgs atomic.Int64
+	forwardedProposals, proposeRejected, stalledBatches                      atomic.Int64
 }
 
 // ---------------------------------------------------------------- durable parts of a node
@@ -212,7 +218,9 @@ func (m *c12SM) applyOne(cmd multiraft.Command) []byte {
 	return []byte(c12ResultOf(data, cmd.Index))
 }
 
-func c12ResultOf(data string, idx uint64) string { return "r:" + data + "@" + strconv.FormatUint(idx, 10) }
+func c12ResultOf(data string, idx uint64) string {
+	return "r:" + data + "@" + strconv.FormatUint(idx, 10)
+}
 
 func (m *c12SM) Apply(ctx context.Context, cmd multiraft.Command) ([]byte, error) {
 	res := m.applyOne(cmd)
@@ -1383,7 +1391,7 @@ func TestVerifC12(t *testing.T) {
 				"replicas": 3, "slots": len(cfg.slots), "proposals": cfg.maxProposals, "leader_ticks": cfg.maxTicks,
 				"leader_changes": cfg.maxLeaderChg, "new_leader_candidates": fmt.Sprint(cfg.leadTargets), "campaign_events": cfg.campaign, "transfer_events": cfg.transfer,
 				"raft_log_store": map[bool]string{false: "raftlog.NewMemory()", true: "raftlog Pebble store on tmpfs (one DB per node, fresh scope per instance)"}[cfg.pebble != nil],
-				"compactions": cfg.maxCompacts, "compaction_nodes": fmt.Sprint(cfg.compactNodes),
+				"compactions":    cfg.maxCompacts, "compaction_nodes": fmt.Sprint(cfg.compactNodes),
 				"crash_restarts": cfg.maxCrashes, "crash_nodes": fmt.Sprint(cfg.crashNodes),
 				"deviation_kinds": fmt.Sprintf("node faults (isolate n | stall n until heal): %v; per-event link deviations %v on each of the 6 directed links; per-message drop/duplicate/hold: %v; crash-restart inside a pass at %v", cfg.nodeFaults, cfg.linkModes, cfg.msgDev, cfg.crashPoints),
 			},
